@@ -112,7 +112,7 @@ def _c05(seed, quick):
     m, mb = (25, 40) if quick else (500, 400)
     n, b = (100, 40) if quick else (2000, 400)
     return {
-        "shards": conc_shards("C05", seed, "same-key", 24 if quick else 400, mb, shards=3) + conc_shards("C05", seed, "update-sweep", 120 if quick else 3000, mb, shards=3) + conc_shards("C05", seed, "mixed", m, mb, shards=6) + seq_shards("C05", seed, n, b, shards=4),
+        "shards": conc_shards("C05", seed, "same-key", 24 if quick else 400, mb, shards=3) + conc_shards("C05", seed, "update-sweep", 120 if quick else 3000, mb, shards=2) + conc_shards("C05", seed, "sweep-reput", 60 if quick else 3000, mb, shards=1) + conc_shards("C05", seed, "mixed", m, mb, shards=6) + seq_shards("C05", seed, n, b, shards=4),
         "rule": CONC_RULE + " " + SEQ_RULE,
         "explanation": "At quiescent points (every command acknowledged, two sweeps completed since the clock stopped) the snapshot must satisfy: total = sum of "
                        "charged weights, charged ids = ids of held entries, and after deleting every key total_weight_used() = 0. Directed races: two puts of one "
@@ -120,7 +120,7 @@ def _c05(seed, quick):
                        "held), put racing upsert, delete racing put; worker-vs-sweeper races on the same keys (TTL keys updated / deleted / re-put while the clock crosses their expiry, with one "
                        "critical section or gap stretched by a long bounded delay so that the other thread's step lands inside it); plus free-running mixed histories with un-awaited writes, eviction and sweeps.",
         "assumptions": COMMON_ASSUMPTIONS,
-        "require": ["quiescent_points_checked", "races_where_both_writes_passed_the_existence_check_before_the_first_was_applied", "delete_everything_checks"],
+        "require": ["quiescent_points_checked", "races_where_both_writes_passed_the_existence_check_before_the_first_was_applied", "delete_everything_checks", "reputs_completed_while_the_sweeper_was_stretched", "forced_long_delays_hit"],
     }
 
 
